@@ -26,7 +26,6 @@ theorem setStatic_recOk {rank R X w t} (hb : Base rank R X w) (hex : existsF w t
     · exact o.chLe ch h
     · cases h; exact Nat.le_refl _
   · exact o.ckLe
-  · exact o.noCsum
   · exact fun h => by cases h
   · exact fun _ => by simp
   · intro e; subst e; rw [hb.fs0] at hn; cases hn
@@ -60,7 +59,7 @@ theorem setStatic_spec {rank R X w t b po} (hi : Inv rank R X w) (hex : existsF 
       cases ho : (w.recs t).isOverride with
       | false => rfl
       | true => have := (hi.base.ovrSt t ho).1; rw [hgen] at this; cases this
-    rw [setStatic_cur hrc hgen hovr]
+    rw [setStatic_cur hrc hgen hovr (hi.base.noCsum t)]
     have e := WEqv.setRec_self w t
     exact ⟨e.inv hi, (e.good R t).2 hg, e.toBExt, fun h => h.eqv e⟩
   · have off := OffT.setRec w t (setStatic w t (w.recs t) R)
@@ -268,7 +267,7 @@ theorem setStatic_flds {a b : Rec} (h : AgreeV a b) (w : World) (t R : Nat) :
   · simp [h.checked]
   · rw [setStatic_changed, setStatic_changed, h.stamp, h.changed]
   · simp
-  · simp [h.csum]
+  · simp
 
 theorem setFailed_flds {a b : Rec} (h : AgreeV a b) (w : World) (t R : Nat)
     (ho : a.isOverride = b.isOverride ∨ a.stamp ≠ some (readStamp w t)) :
